@@ -24,4 +24,6 @@ json.dump({'comment': 'frozen on the pinned tree by tools/gen_entry_sets.py: exp
 print('rows:', len(rules.FREEZE))
 json.dump({'comment': 'frozen on the pinned tree by tools/gen_entry_sets.py: per crate and callee, the reviewed places where a failing call is tolerated (the caller can still succeed)', 'crates': {k: dict(sorted(v.items())) for k, v in sorted(rules.FREEZE_TOL.items())}},
           open(os.path.join(V, 'tables', 'tolerated_failures.json'), 'w'), indent=1)
+json.dump({'comment': 'frozen on the pinned tree by tools/gen_entry_sets.py: per crate, number of update sites of each state field named by a property (K16)', 'crates': {k: dict(sorted(v.items())) for k, v in sorted(rules.FREEZE_WS.items())}},
+          open(os.path.join(V, 'tables', 'write_sites.json'), 'w'), indent=1)
 print('tolerated-failure callees:', sum(len(v) for v in rules.FREEZE_TOL.values()))
